@@ -177,6 +177,12 @@ def execute(ctx, case: dict) -> None:
             k = min(case["nested_acl"], len(obj.items) - 1)
             chunk = [i for i in obj.items[-k:] if type(i).__name__ in ("Ace", "Remark")]
             if len(chunk) == k:
+                if k >= 2 and case.get("deep"):
+                    # two levels: a group inside the nested block (numbers are removed / assigned at every depth)
+                    from cisco_acl import AceGroup as _AceGroup  # pylint: disable=import-outside-toplevel
+
+                    chunk = [_AceGroup(items=chunk[:2], platform=platform)] + chunk[2:]
+                    ctx.count("two_level_nesting")
                 inner = Acl(name="INNER", platform=platform, items=chunk)
                 obj.items[-k:] = [inner]
                 ctx.count("nested_acl_blocks")
@@ -263,7 +269,7 @@ def gen_cases(ctx):
                 calls.insert(0, (seqs[0], (seqs[-1] - seqs[0]) // (count - 1)))
             yield {"cls": "Acl", "platform": platform, "text": acl["text"], "group_by": heading or "", "calls": calls,
                    "n": count, "extra": extra, "version": rng.choice(["", "", "15", "15.2(4)M3", "16.09.06"]),
-                   "nested_acl": rng.choice([0, 0, 0, 0, 1, 2, 3]) if not heading else 0}
+                   "nested_acl": rng.choice([0, 0, 0, 0, 1, 2, 3]) if not heading else 0, "deep": rng.random() < 0.6}
         elif roll < 0.82:
             acl = grammar.gen_acl(rng, platform, ace_kw=dict(allow_multi=False, ws=False, max_k=2))
             body = "\n".join(acl["text"].split("\n")[1:])
